@@ -209,6 +209,15 @@ def run_accept(case, r):
         o.create_multi_tag(name="mtag-copy-in-other", copy_from=b.multi_tags["mtag"])
         if len(b.data_frames):
             o.create_data_frame(name="frame-copy-in-other", copy_from=b.data_frames["frame"])
+        # blocks whose names are related by prefix to the local block's name ("blk"): membership must be
+        # decided by identity, never by comparing names or HDF5 paths textually
+        px = {}
+        for tagname, bname in (("foreign-block-name-extends-local", "blk2"), ("foreign-block-name-prefix-of-local", "bl")):
+            pb = seeds.build_light_block(f, bname)
+            pb.create_multi_tag("mtag", "t", pb.data_arrays["sig"])
+            if len(b.data_frames):
+                pb.create_data_frame("frame", "t", col_dict={"c": int})
+            px[tagname] = pb
         g, t, mt, da = b.groups["grp"], b.tags["tag"], b.multi_tags["mtag"], b.data_arrays["sig"]
         lists = {
             "group.data_arrays": (g.data_arrays, "array"), "group.tags": (g.tags, "tag"), "group.multi_tags": (g.multi_tags, "mtag"),
@@ -226,6 +235,14 @@ def run_accept(case, r):
                        "foreign-same-name": o.sources["src"], "foreign-nested-same-name": o.sources["src"].sources["src"],
                        "foreign-deep": o.sources["src"].sources["src"].sources["deep3"]},
         }
+        for tagname, pb in px.items():
+            pool["array"][tagname] = pb.data_arrays["sig"]
+            pool["tag"][tagname] = pb.tags["tag"]
+            pool["mtag"][tagname] = pb.multi_tags["mtag"]
+            if len(b.data_frames):
+                pool["frame"][tagname] = pb.data_frames["frame"]
+            pool["source"][tagname] = pb.sources["src"]
+            pool["source"][tagname + "-nested"] = pb.sources["src"].sources["src"]
         wrong = {"array": b.tags["tag"], "tag": b.data_arrays["sig"], "mtag": b.tags["tag"], "frame": b.data_arrays["sig"], "source": b.data_arrays["sig"]}
         lname = case["list"]
         lst, kind = lists[lname]
@@ -305,6 +322,8 @@ def run_dimlink(case, r):
         size = int(np.prod(shape))
         src = (np.arange(size, dtype=np.float64) * 0.5 + 1).reshape(shape)
         ticksrc = b.create_data_array("ticksrc", "t", data=src, unit="ms", label="time")
+        b2 = f.create_block("b2", "t")
+        twin_src = b2.create_data_array("ticksrc", "t", data=src * 100.0, unit="kV", label="twin")
         good, bad = index_specs(shape)
         k = 0
         for idx in good:
@@ -365,7 +384,26 @@ def run_dimlink(case, r):
                 r.viol("C05|dimlink|rank%d|held-handle-writes-to-old-array" % len(shape),
                        "unit written through the held handle landed in the wrong array (new %r, old %r)" % (other_src.unit, ticksrc.unit), {})
                 return
+            # re-linking to an array of the SAME NAME AND TYPE in another block (a link is an alias of one
+            # particular entity, identified by what it is, not by what it is called)
+            r.evals += 1
+            r.nontrivial += 1
             d2 = da.dimensions[len(da.dimensions) - 1]
+            d2.link_data_array(ticksrc, idx)
+            d2.link_data_array(twin_src, idx)
+            vec_t = (src * 100.0)[tuple(slice(None) if i == -1 else i for i in idx)]
+            d2 = da.dimensions[len(da.dimensions) - 1]
+            if list(d2.ticks) != vec_t.tolist() or d2.unit != "kV" or d2.label != "twin":
+                r.viol("C05|dimlink|rank%d|relink-to-same-name-in-other-block-keeps-old-target" % len(shape),
+                       "linked to ticksrc, then re-linked to the array of the same name and type in another block: ticks %r unit %r "
+                       "label %r (expected %r kV twin)" % (list(d2.ticks), d2.unit, d2.label, vec_t.tolist()), {})
+                return
+            d2.label = "twin2"
+            if twin_src.label != "twin2" or ticksrc.label != "time":
+                r.viol("C05|dimlink|rank%d|relink-to-same-name-in-other-block-writes-to-old-target" % len(shape),
+                       "label written through the dimension landed in the wrong array (%r / %r)" % (twin_src.label, ticksrc.label), {})
+                return
+            twin_src.label = "twin"
             # explicit ticks replace the link
             r.evals += 1
             d2.ticks = [1.0, 2.0]
